@@ -20,7 +20,7 @@ import json
 import re
 
 from harness import core
-from harness.core import cN, cbool, clist, copt, cstr, ctuple, pstr
+from harness.core import cN, cZ, cbool, clist, copt, cstr, ctuple, pstr
 
 LEVEL = "proof"
 IMPORTS = ["Common.Str", "Common.Json", "C04.Model_C04"]
@@ -463,10 +463,29 @@ def foreign_valid(facts: Facts, data):
     return ok
 
 
+INT_WS = "".join(chr(c) for c in range(0x3001) if chr(c).isspace() and not 28 <= c <= 31)
+
+
+def o_int_literal(text: str):
+    """Independent reading of a base-10 integer literal: surrounding white space, one optional sign, decimal digits (any script)
+    in groups joined by single underscores.  -> the EXACT integer (digit by digit, no int(), no float) or None."""
+    import unicodedata
+
+    m = re.fullmatch(r"([+-]?)(\d+(?:_\d+)*)", text.strip(INT_WS))
+    if m is None:
+        return None
+    n = 0
+    for ch in m.group(2):
+        if ch != "_":
+            n = n * 10 + unicodedata.decimal(ch)
+    return -n if m.group(1) == "-" else n
+
+
 def own_coerce(value: str, schema):
     t = schema.get("type", "string")
-    if t == "integer" and re.fullmatch(r"-?[0-9]+", value):
-        return int(value)
+    if t == "integer":
+        n = o_int_literal(value)
+        return value if n is None else n
     if t == "boolean" and value in ("true", "false"):
         return value == "true"
     return value
@@ -945,6 +964,190 @@ def history_stage(chk, rng, ndocs):
     chk.stages["histories"] = {"documents": len(runs), "validations": n_steps, "history_dependent": n_hist, "model_disagreements": n_model}
 
 
+# ----------------------------------------------------------------------------------------
+# header value coercion: _coerce_header_value and the headers check on generated header TEXTS
+# ----------------------------------------------------------------------------------------
+TWO53, TWO63, TWO64 = 2**53, 2**63, 2**64
+HTYPES = {"string": "TString", "integer": "TInteger", "number": "TNumber", "boolean": "TBoolean", "null": "TNull", "array": "TArray", "object": "TOther"}
+INT_TEXT_FIXED = ["1e3", "5E0", "12.0", "12.", ".5", "1e+3", "10e-1", "0x10", "1,000", "inf", "nan", "Infinity", "-inf", "", " ", "abc", "true", "null", "NULL",
+                  "+", "-", "_", "1_", "_1", "1__0", "1_0", "+-1", "--1", "+ 1", "- 1", "1 2", "\x1c42", "42\x1f", "4\x002", "١e٣", "١٢.٠",
+                  "0", "-0", "+0", "00", "007", "-007", "1" + "0" * 30, "9007199254740993.0", "9.007199254740993e15", "1E400", "1e-400",
+                  "ON", "Yes", "y", "T", "1", "0", "off", "No", "F", "2", "tRuE", "FALSE", "K", "oɴ"]
+WS_SAMPLES = [" ", "\t", "\n", "\r", "\x0b", "\x0c", "\xa0", "\x85", " ", "　", "  ", "\x1c", "\x1f", "​"]
+
+
+def gen_int_text(rng, nd_zeros):
+    """-> (text, the integer the plain digits stand for or None)."""
+    k = rng.random()
+    if k < 0.22:
+        return rng.choice(INT_TEXT_FIXED), None
+    if k < 0.45:
+        n = rng.choice([0, 1, 5, 9, 10, 12, 15, 20, 21, 99, 100, 255, 1000, 4096])
+    elif k < 0.55:
+        n = rng.randrange(0, 10 ** rng.choice([3, 9, 15, 16, 17, 18, 19, 20, 25]))
+    else:
+        n = rng.choice([TWO53, TWO63, TWO64, 10**17, 10**19, 2**31, 2**32]) + rng.randrange(-4, 5)
+    digits = str(n)
+    if rng.random() < 0.15:
+        digits = "0" * rng.randrange(1, 4) + digits
+    if rng.random() < 0.2 and len(digits) > 1:  # underscores: a valid single one, or a misplaced one
+        i = rng.randrange(1, len(digits))
+        digits = digits[:i] + rng.choice(["_", "_", "_", "__"]) + digits[i:]
+        if rng.random() < 0.15:
+            digits = rng.choice(["_" + digits, digits + "_"])
+    if rng.random() < 0.15:  # decimal digits of another script: all of them or one
+        z = rng.choice(nd_zeros)
+        if rng.random() < 0.6:
+            digits = "".join(chr(z + ord(c) - 48) if c.isdigit() else c for c in digits)
+        else:
+            i = rng.randrange(len(digits))
+            if digits[i] != "_":
+                digits = digits[:i] + chr(z + ord(digits[i]) - 48) + digits[i + 1:]
+    text = rng.choice(["", "", "", "-", "-", "+", "+-", "- "]) + digits
+    if rng.random() < 0.22:  # exponent / decimal point notation of the same or another number
+        text += rng.choice(["e0", "E0", "e1", "e3", ".0", ".00", ".", ".5", "e-1", "e+0", ".0e0"])
+    if rng.random() < 0.2:
+        text = rng.choice(WS_SAMPLES) + text
+    if rng.random() < 0.2:
+        text = text + rng.choice(WS_SAMPLES)
+    return text, n
+
+
+def gen_bounds(rng, n):
+    """minimum / maximum next to the value (equal, one off either way) or next to 2**53 / 2**63."""
+    out = {}
+    base = n if n is not None and rng.random() < 0.7 else rng.choice([TWO53, TWO63, TWO64, 10, 0])
+    for kw in ("minimum", "maximum"):
+        if rng.random() < 0.55:
+            b = base + rng.randrange(-3, 4)
+            out[kw] = -b if rng.random() < 0.15 else b
+    return out
+
+
+def hdr_doc(v30, hschema):
+    h = {"schema": hschema} if v30 else dict(hschema)
+    op = {"responses": {"200": {"description": "d", "headers": {"X-N": h}}}}
+    raw = {"info": {"title": "t", "version": "1"}, "paths": {"/x": {"get": op}}}
+    raw.update({"openapi": "3.0.2"} if v30 else {"swagger": "2.0"})
+    return raw
+
+
+def canon_coerced(v, text):
+    """Result of the real _coerce_header_value in the vocabulary of Model_C04.hval."""
+    if v is None:
+        return ("HNull",)
+    if isinstance(v, bool):
+        return ("HBool", v)
+    if isinstance(v, int):
+        return ("HInt", v)
+    if isinstance(v, float):
+        return ("HFloatOfInt", int(v)) if v == v and abs(v) != float("inf") and v.is_integer() else ("HFloatOpaque",)
+    return ("HStr", v)
+
+
+def canon_hval(o):
+    if isinstance(o, core.Sym):
+        return (o.name,)
+    if isinstance(o, str):
+        return (o,)
+    if o[0] == "HStr":
+        return ("HStr", pstr(o[1]))
+    return (o[0], o[1])
+
+
+def header_coercion_stage(chk, rng, n):
+    import unicodedata
+
+    from schemathesis.specs.openapi.checks import _coerce_header_value
+
+    # the two tables of the model against the running interpreter
+    tables = core.coq_eval(IMPORTS, ["(nd_zeros, int_ws)"])[0]
+    zeros = [c for c in range(0x110000) if unicodedata.decimal(chr(c), None) == 0]
+    runs_ok = all(unicodedata.decimal(chr(z + i), None) == i for z in zeros for i in range(10))
+    n_dec = sum(1 for c in range(0x110000) if unicodedata.decimal(chr(c), None) is not None)
+    if list(tables[0]) != zeros or not runs_ok or n_dec != 10 * len(zeros):
+        chk.disagree("Model_C04.nd_zeros vs unicodedata.decimal", {"unidata": unicodedata.unidata_version}, zeros, list(tables[0]))
+    ws_impl = [c for c in range(0x110000) if unicodedata.decimal(chr(c), None) is None and chr(c) not in "+-_" and _int_accepts(chr(c) + "1") and _int_accepts("1" + chr(c))]
+    one_sided = [c for c in range(0x110000) if unicodedata.decimal(chr(c), None) is None and chr(c) not in "+-_" and _int_accepts(chr(c) + "1") != _int_accepts("1" + chr(c))]
+    if one_sided:
+        chk.disagree("int() strips the same characters on both sides", {}, one_sided, [])
+    if list(tables[1]) != ws_impl:
+        chk.disagree("Model_C04.int_ws vs the characters int() strips", {}, ws_impl, list(tables[1]))
+
+    cases = []
+    for txt, lo, hi in [("1e3", None, None), (str(TWO53 + 1), None, TWO53), (str(TWO53 + 3), None, TWO53 + 3), ("12.0", 10, 20), (" +1_000 ", None, 1000),
+                        ("٤٢", 42, 42), (str(TWO63), TWO63, TWO63), (str(-TWO63 - 1), -TWO63, None), ("5E0", None, None), ("15", 10, 20), ("21", 10, 20)]:
+        b = {k: v for k, v in (("minimum", lo), ("maximum", hi)) if v is not None}
+        for t in ("integer", "number"):
+            cases.append((t, txt, b, True))
+    while len(cases) < n:
+        txt, num = gen_int_text(rng, zeros)
+        t = rng.choice(["integer"] * 6 + ["number", "number", "boolean", "boolean", "string", "null", "array", "object"])
+        cases.append((t, txt, gen_bounds(rng, num) if t in ("integer", "number") else {}, rng.random() < 0.7))
+
+    exprs = []
+    for t, txt, b, _ in cases:
+        exprs.append("(coerce_header %s %s, hdr_int_conforms %s %s %s)" % (
+            HTYPES[t], cstr(txt), copt(cZ(b["minimum"]) if "minimum" in b else None, "Z"), copt(cZ(b["maximum"]) if "maximum" in b else None, "Z"), cstr(txt)))
+    model = core.coq_eval(IMPORTS, exprs, shard=300)
+
+    n_dis = n_fail = 0
+    loaded = {}
+    for (t, txt, b, v30), (m_val, m_conf) in zip(cases, model):
+        hschema = {"type": t, **b}
+        if t == "array":
+            hschema["items"] = {"type": "integer"}
+        canon_in = {"type": t, "text": txt, "bounds": b, "v30": v30}
+        m_val = canon_hval(m_val)
+        # (a) the real coercion function against coerce_header
+        got = canon_coerced(_coerce_header_value(txt, hschema), txt)
+        chk.count(f"coerce:{t}:{got[0]}")
+        if got != m_val and m_val != ("HFloatOpaque",):  # HFloatOpaque: float() of this text is not modelled
+            n_dis += 1
+            if n_dis <= 10:
+                chk.disagree("_coerce_header_value vs Model_C04.coerce_header", canon_in, list(got), list(m_val))
+        if t != "integer":
+            chk.seen(canon_in, got[0] != "HStr")
+            continue
+        # (b) the real headers check on a document with this one integer header against hdr_int_conforms, and
+        # (c) against the independent oracle: a base-10 literal whose exact value is within the bounds
+        raw = hdr_doc(v30, hschema)
+        resp = {"status": 200, "headers": {"X-N": [txt]}, "body_hex": ""}
+        key = (v30, json.dumps(hschema, sort_keys=True))
+        if key not in loaded:
+            loaded[key] = load(raw)
+        impl = [canon_impl(o) for o in impl_run(loaded[key], resp)]
+        canon = {"doc": raw, "response": resp}
+        exact = o_int_literal(txt)
+        expected = exact is not None and b.get("minimum", exact) <= exact <= b.get("maximum", exact)
+        dev, _ = oracle(raw, resp)
+        chk.seen(canon, True)
+        chk.count("header_text:" + ("literal" if exact is not None else "not_literal") + (":conforms" if expected else ":deviates")
+                  + (":above_2**53" if exact is not None and abs(exact) > TWO53 else ""))
+        want = [[], [], [] if m_conf else ["JsonSchemaError"], []]
+        if impl != want:
+            n_dis += 1
+            if n_dis <= 10:
+                chk.disagree("response_headers_conformance on an integer header vs Model_C04.hdr_int_conforms", canon, dict(zip(CHECK_NAMES, impl)), dict(zip(CHECK_NAMES, want)))
+        if m_conf != expected or bool(dev) == expected:
+            chk.disagree("Coq hdr_int_conforms vs independent exact reading of the header text", canon, {"oracle": expected, "general_oracle": sorted(dev)}, {"hdr_int_conforms": m_conf})
+            continue
+        crashed = any(isinstance(o, str) for o in impl)
+        if crashed or any(o for o in impl) == expected:
+            n_fail += 1
+            what = "check raised instead of reporting" if crashed else ("conforming response failed (false alarm)" if expected else "deviation passed (miss)")
+            chk.fail(f"{what}: integer header text {txt!r} (exact value {exact}) under {hschema}: oracle {sorted(dev)} vs checks {dict(zip(CHECK_NAMES, impl))}", canon, region=None)
+    chk.stages["header_coercion"] = {"cases": len(cases), "disagreements": n_dis, "failing": n_fail}
+
+
+def _int_accepts(text):
+    try:
+        int(text)
+        return True
+    except ValueError:
+        return False
+
+
 CRASH_REGION = {"RAISES ValueError": "keys_parse", "RAISES UnicodeDecodeError": "body_decodes", "RAISES MalformedMediaType": "ct_wellformed",
                 "RAISES RefResolutionError": "flat_refs"}
 
@@ -976,7 +1179,8 @@ def run(chk: core.Check):
     chk.assumptions = [
         "valid sid: python-jsonschema accepts the decoded body under the schema as converted by to_json_schema_recursive (nullable, writeOnly: property C01) "
         "- a function argument of the model, computed per case with the real converter; the oracle uses its own reading of nullable/writeOnly/$ref instead",
-        "hvalid hid: header text coerced to the documented type and validated; _coerce_header_value itself is not modelled (values are drawn where every reading agrees)",
+        "hvalid hid: header text coerced to the documented type and validated - a function argument of the verdict model (values of the main stage are drawn where every reading agrees); "
+        "_coerce_header_value itself is modelled separately (coerce_header, hdr_int_conforms: int() grammar with exact integers; float() only for integer literals up to 2**53) and tied in the header_coercion stage",
         "JSON parsing and UTF-8 decoding of the body are foreign: the body reaches the model classified as BadUtf8 / NotJson / Json",
         "header names, media types and response keys are ASCII except for a few caseless code points (str.lower/upper modelled on ASCII letters)",
         "status codes 100..599 and keys default / NNN / NXX in the oracle stage; other keys and codes only in the model-vs-implementation stage",
@@ -1000,6 +1204,7 @@ def run(chk: core.Check):
     expand_stage(chk, rng, 150 if quick else 1500)
     convert_stage(chk, rng, 300 if quick else 3000)
     history_stage(chk, rng, 250 if quick else 2500)
+    header_coercion_stage(chk, rng, (1200 if quick else 12000) * (4 if chk.broken else 1))
 
     # ---- corpus + generated (document, response) pairs
     corpus = [json.loads(p.read_text()) for p in sorted((core.VERIF / "corpus" / "C04").glob("*.json"))]
